@@ -23,4 +23,6 @@ let table : (string * (val0 -> val0)) list = [
   "chk_c15", chk_c15;
   "chk_c15_race", chk_c15_race;
   "chk_c05", chk_c05;
+  "chk_c09", chk_c09;
+  "chk_c09_rt", chk_c09_rt;
 ]
